@@ -1222,6 +1222,9 @@ def run(ctx):
     trace_full_mode_probe(ctx, build_default(ctx))
 
     ctx.log("phase done: trace-full")
+    # ---------------- history vs fresh object
+    history_vs_fresh_probe(ctx, build_default(ctx))
+
     # ---------------- failed part1 / changed N: integrator arrays of an earlier N must not be touched
     failed_step_probe(ctx, build_default(ctx))
 
@@ -1633,6 +1636,155 @@ def remove_all_var_config_probe(ctx, libdir):
                           "after reb_simulation_remove_all_particles N / N_var / N_var_config are not all 0: stale variational configurations index the removed particles")
             break
     ctx.obligation("searcher:C14 remove-all / var_config probe ran (%d sizes)" % n, True, "")
+
+
+HISTORY_VS_FRESH_SCRIPT = r"""import sys, json, math, warnings, struct
+warnings.simplefilter("ignore")
+import rebound
+integ, hist = sys.argv[1], sys.argv[2]
+def setup(s):
+    s.G = 1.0; s.dt = 0.02
+    if integ == "whfast_unsafe":
+        s.integrator = "whfast"; s.ri_whfast.safe_mode = 0
+    elif integ == "saba_unsafe":
+        s.integrator = "saba"; s.ri_saba.safe_mode = 0
+    else:
+        s.integrator = integ
+    if integ in ("mercurius",): s.ri_mercurius.r_crit_hill = 3.
+    if integ == "eos": s.ri_eos.n = 2
+def body(k):   # well separated planets, deterministic
+    return dict(m=1e-4*(1+k%3), a=1.0+0.55*k, e=0.02*(k%4), f=0.7*k, inc=0.01*k, hash=100+k)
+def sync(s):
+    s.synchronize()
+    if integ == "whfast_unsafe": s.ri_whfast.recalculate_coordinates_this_timestep = 1
+    if integ == "saba_unsafe": s.ri_whfast.recalculate_coordinates_this_timestep = 1
+s = rebound.Simulation(); setup(s)
+s.add(m=1., hash=99)
+for k in range(5): s.add(primary=s.particles[0], **body(k))
+s.move_to_com()
+s.steps(7)
+sync(s)
+extra = None
+if hist == "replace_keep":          # remove one, add another: N unchanged (order preserved, new one last)
+    s.remove(2, keep_sorted=True); s.add(primary=s.particles[0], **body(9))
+elif hist == "replace_unsorted":
+    s.remove(2, keep_sorted=False); s.add(primary=s.particles[0], **body(9))
+elif hist == "replace_last":
+    s.remove(s.N-1); s.add(primary=s.particles[0], **body(9))
+elif hist == "remove_one":
+    s.remove(3)
+elif hist == "add_one":
+    s.add(primary=s.particles[0], **body(9))
+elif hist == "remove_add_remove":
+    s.remove(1); s.add(primary=s.particles[0], **body(9)); s.remove(hash=101+1)
+elif hist == "rehash":
+    _ = s.particles["nothing"] if False else None
+    for h in (100, 103, 77):
+        try: s.particles[rebound.hash(h)].index
+        except rebound.ParticleNotFound: pass
+    s.particles[1].hash = 103; s.particles[4].hash = 100; s.remove(hash=102); s.add(primary=s.particles[0], **body(2))
+elif hist == "nactive_replace":
+    s.N_active = 4; s.remove(1, keep_sorted=True); s.add(primary=s.particles[0], **body(9))
+elif hist == "switch_replace_back":   # another integrator is selected while the particle set changes, then back
+    s.integrator = "leapfrog"
+    s.remove(2, keep_sorted=True); s.add(primary=s.particles[0], **body(9))
+    snap = [(p.m, p.x, p.y, p.z, p.vx, p.vy, p.vz, p.r, p.hash.value) for p in s.particles]
+    setup(s)
+elif hist == "none":
+    pass
+if "snap" not in dir():
+    snap = [(p.m, p.x, p.y, p.z, p.vx, p.vy, p.vz, p.r, p.hash.value) for p in s.particles]
+sync(s)
+# synchronising must not replace the particles the user has just put there
+moved = max([max(abs(a - b) for a, b in zip(w[1:7], (p.x, p.y, p.z, p.vx, p.vy, p.vz))) for w, p in zip(snap, s.particles)] + [0.0])
+# ---- fresh simulation with the same state
+f = rebound.Simulation(); setup(f)
+f.t = s.t; f.dt = s.dt; f.N_active = s.N_active
+for w in snap:
+    f.add(m=w[0], x=w[1], y=w[2], z=w[3], vx=w[4], vy=w[5], vz=w[6], r=w[7], hash=w[8])
+# lookups
+lk = []
+for h in (99, 100, 101, 102, 103, 104, 109, 77):
+    def look(sim):
+        try:
+            q = sim.particles[rebound.hash(h)]; return [True, q.hash.value == h, q.index]
+        except rebound.ParticleNotFound: return [False, None, None]
+    lk.append([h, look(s), look(f)])
+adaptive = integ in ("ias15", "bs")
+tend = s.t + 0.3
+if adaptive:
+    s.integrate(tend, exact_finish_time=1); f.integrate(tend, exact_finish_time=1)
+else:
+    s.steps(6); f.steps(6)
+    s.synchronize(); f.synchronize()
+def bits(x): return struct.unpack("<Q", struct.pack("<d", x))[0]
+worst = 0.0; same = s.N == f.N and s.t == f.t
+for a, b in zip(s.particles, f.particles):
+    for c in ("x","y","z","vx","vy","vz","m"):
+        u, v = getattr(a,c), getattr(b,c)
+        if bits(u) != bits(v) and not (u != u and v != v): same = False
+        d = abs(u - v) if (u == u and v == v) else float("inf")
+        worst = max(worst, d)
+print(json.dumps({"moved_by_sync": moved, "bitwise": same, "worst": worst, "N": [s.N, f.N], "t": [s.t, f.t], "dt": [s.dt, f.dt],
+                  "lookup_bad": [l for l in lk if l[1][0] != l[2][0] or l[1][1] is False or l[2][1] is False]}))
+"""
+
+HVF_INTEGRATORS = ["ias15", "whfast", "whfast_unsafe", "saba", "saba_unsafe", "mercurius", "trace", "bs", "eos", "leapfrog", "janus", "sei"]
+HVF_HISTORIES = ["replace_keep", "replace_unsorted", "replace_last", "remove_one", "add_one", "remove_add_remove", "rehash", "nactive_replace", "switch_replace_back", "none"]
+
+
+def history_vs_fresh_probe(ctx, libdir):
+    """A simulation that was stepped, then had particles removed / added / re-hashed (documented protocol: synchronize,
+    recalculation flag with safe_mode off), must continue like a FRESH simulation built from its final particle list:
+    bit for bit, except where the integrator legitimately remembers the past (IAS15 / JANUS when nothing was changed,
+    the step-size and order controller of BS): there to 1e-9.  Hash look-ups must agree as well."""
+    from concurrent.futures import ThreadPoolExecutor
+    d = os.path.join(vlib.BUILD, "cases"); os.makedirs(d, exist_ok=True)
+    f = os.path.join(d, "c14_history_vs_fresh.py"); open(f, "w").write(HISTORY_VS_FRESH_SCRIPT)
+    hists = HVF_HISTORIES if ctx.thorough else ["replace_keep", "replace_unsorted", "remove_add_remove", "rehash", "nactive_replace", "switch_replace_back"]
+    env = vlib.pyenv(libdir)
+
+    def one(job):
+        try:
+            r = subprocess.run([vlib.PY, f, job[0], job[1]], env=env, capture_output=True, text=True, timeout=180, stdin=subprocess.DEVNULL)
+        except subprocess.TimeoutExpired:
+            return job, None, "timeout", 1
+        o = None
+        for line in reversed((r.stdout or "").splitlines()):
+            if line.startswith("{"):
+                try:
+                    o = json.loads(line)
+                except ValueError:
+                    pass
+                break
+        return job, o, (r.stderr or "")[-600:], r.returncode
+    jobs = [(ig, h) for ig in HVF_INTEGRATORS for h in hists]
+    with ThreadPoolExecutor(max_workers=vlib.JOBS) as ex:
+        results = list(ex.map(one, jobs))
+    n = 0; reported = False
+    for (ig, h), o, err, rc in results:
+        ctx.evaluations += 1
+        if o is None:
+            if rc < 0 and not reported:
+                reported = True
+                ctx.violation("history-vs-fresh:" + ig, {"integrator": ig, "history": h, "exit": rc, "stderr": err}, True,
+                              "the simulation with history crashed where a fresh one is built from the same particles")
+            continue
+        n += 1
+        # legitimate memory of the past: the controller of BS; IAS15 / JANUS when nothing was changed; IAS15's predictor arrays
+        # when the exchange happened while another integrator was selected (only a first guess) -- then to 1e-9; JANUS is told
+        # of every add/remove since f14d886 and must continue bit for bit; synchronising must not move particles
+        moved = o.get("moved_by_sync", 0.0)
+        memory_ok = ig == "bs" or (h == "none" and ig in ("ias15", "janus")) or (h == "switch_replace_back" and ig == "ias15")
+        bad = o["lookup_bad"] or o["N"][0] != o["N"][1] or moved > 1e-9 or (not o["bitwise"] and not (memory_ok and o["worst"] < 1e-9))
+        if bad and not reported:
+            reported = True
+            ctx.violation("history-vs-fresh:" + ig, {"integrator": ig, "history": h, "observed": o,
+                                                     "repro": "build/cases/c14_history_vs_fresh.py %s %s" % (ig, h)}, True,
+                          "after the history '%s' the %s simulation does not continue like a fresh simulation holding the same particles "
+                          "(max difference %.3g, particles moved by synchronize %.3g, hash look-ups differing: %s)" % (h, ig, o["worst"], moved, o["lookup_bad"]))
+    ctx.obligation("searcher:C14 history-vs-fresh probe ran (%d integrators x %d histories, %d compared)" % (len(HVF_INTEGRATORS), len(hists), n),
+                   n >= len(jobs) * 3 // 4, "")
 
 def drive_variation(libdir):
     script = r'''
